@@ -129,6 +129,16 @@ CLAIMS['C19'] = dict(
           "(filter of its own output) and monotonicity (stricter cutoff gives a sub-collection) on paired runs."),
     note="Integer expression values and cutoffs; closed miscleavage ranges only ('1:' crashes in the CLI's range parser and is not generated).",
     technique="TLA+ rule evaluated by TLC on recorded runs, incl. paired runs", ref='6 C19')
+CLAIMS['C20'] = dict(
+    text=("DecoyTrace.tla: for every recorded decoyFasta run TLC checks: record count, every target unchanged, exactly one decoy per "
+          "target with the decoy string attached as requested, decoy sequence a permutation of the target's residues, N-/C-terminus "
+          "and listed residues in place, residues at C-terminal cutters' cleavage sites in place, 'reverse' = the unique reversal of "
+          "the free positions (without enzyme), requested output order, same output on a second run with the same seed, same set of "
+          "records when the input records are permuted (distinct sequences)."),
+    note=("Known finding: with --enzyme the kept position is the residue after the cleavage residue (pinned test depends on it); "
+          "targets are distinct sequences, so the order-dependence for duplicate sequences is outside the generated domain; "
+          "N-terminal cutters are checked for all clauses except the enzyme one."),
+    technique="TLC validation of recorded runs (incl. paired runs) against a TLA+ statement of the decoy contract", ref='6 C20')
 PENDING = "not claimed in this revision: check not built yet (work in progress, see DESIGN.md section 12)"
 NA = {}
 
